@@ -2609,3 +2609,21 @@ MM("C04", "model-dict-shared-between-workflows", [
     (P2P, "    for job_name, job_event_gen in pv_streams:\n",
           "    events: dict[str, Event] = {}\n    for job_name, job_event_gen in pv_streams:\n")], "R4.4",
   "one dict is handed from workflow to workflow (seed C04-p)")
+
+# ============================================================ triage D: behaviour-preserving edits (were candidate mutants)
+for _P in ("C07", "C01"):
+    T(_P, "twin-break-no-dummy-predecessor", CUG,
+      "                    break_event.update_in_event_sets([DUMMY_BREAK_EVENT_TYPE])\n", "",
+      "the singleton predecessor set {DUMMY_BREAK} decides no merge (triaged)")
+    T(_P, "twin-dummies-not-in-loop-events", SGL,
+      "    add_end_event_to_graph(end_event, loop, graph, end_event_to_event_lists)\n"
+      "    loop.loop_events.add(start_event)\n    loop.loop_events.add(end_event)\n",
+      "    add_end_event_to_graph(end_event, loop, graph, end_event_to_event_lists)\n",
+      "the loop object of the body is a local deep copy nobody reads afterwards (triaged)")
+    T(_P, "twin-entries-not-cut", SGL,
+      "    remove_event_edges_and_event_sets(start_points_in_edges, graph)\n", "",
+      "outside predecessors are pruned with their mirror sets a few statements later (triaged)")
+    T(_P, "twin-end-boundary-edges-not-removed", CUG,
+      "    remove_event_edges_and_event_sets(event_edges, graph)\n    for event in events_out_of_end_events:\n        graph.add_edge(loop_event, event)",
+      "    for event in events_out_of_end_events:\n        graph.add_edge(loop_event, event)",
+      "the orchestration removes every out-edge of the loop's events right after (triaged)")
